@@ -282,6 +282,122 @@ theorem headState_ok {c : Cfg} {s : St} {h a : Nat} (hh : s.db.height = some h) 
   have := I.hdrKeep h (Nat.le_refl _) (by have := I.ale; omega)
   simp [headState, hh, this]
 
+/-! ### below the floor -/
+
+/-- Queries that read an entry the pruner deletes for EVERY pruned block (commitments, state update,
+transactions): everything except the bare header (kept for `BlockHashLag`), the hash→number mapping (kept
+for the block just below the floor) and the state readers. -/
+def Q.readsPruned : Q → Bool
+  | .blockByNumber | .blockByHash | .stateUpdateByNumber | .stateUpdateByHash | .commitments | .txsByNumber
+  | .txAndReceiptByIndex | .txByHash | .receiptByHash => true
+  | _ => false
+
+theorem below_gone {c : Cfg} {s : St} {h a : Nat} (I : InvA c s h a) (n : Nat) (hn : n < a) :
+    s.db.has .comm n = false ∧ s.db.has .su n = false ∧ s.db.has .txs n = false := by
+  have hc : s.db.has .comm n = false := by
+    cases hc : s.db.has .comm n with
+    | false => rfl
+    | true => have := (I.commIff n).mp hc; omega
+  exact ⟨hc, by rw [I.suEq, hc], by rw [I.txsEq, hc]⟩
+
+theorem below_floor_readsPruned {c : Cfg} {s : St} {h a : Nat} (I : InvA c s h a) (q : Q)
+    (hq : q.readsPruned = true) (n : Nat) (hn : n < a) : answer c s q n = .notfound := by
+  obtain ⟨h1, h2, h3⟩ := below_gone I n hn
+  cases q <;> simp_all [answer, allOf, Q.readsPruned]
+
+theorem h2n_below {c : Cfg} {s : St} {h a : Nat} (I : InvA c s h a) (hf : c.fixed = true) (n : Nat)
+    (hn : n + 1 < a) : s.db.has .h2n n = false := by
+  cases hc : s.db.has .h2n n with
+  | false => rfl
+  | true =>
+    have := I.h2nLow n hc
+    cases hj : s.job with
+    | idle => rw [hj] at this; simp only [h2nOk] at this; omega
+    | run st en cu fi => rw [hj] at this; simp only [h2nOk, hf, if_true] at this; omega
+
+theorem stateAtNumber_far_below {c : Cfg} {s : St} {h a : Nat} (hh : s.db.height = some h) (I : InvA c s h a)
+    (hf : c.fixed = true) (n : Nat) (hn : n + 1 < a) : answer c s .stateAtNumber n = .notfound := by
+  by_cases hs : s.mem.floorState = 0
+  · have := h2n_below I hf n hn
+    simp [answer, hh, hs, this]
+  · have h1 := (I.m1 hs).1
+    have hs' := (u64_ne_zero_iff _).mp hs
+    have h1le : (1 : UInt64) ≤ s.mem.floorState := by simp [UInt64.le_iff_toNat_le]; omega
+    have := UInt64.toNat_sub_of_le _ _ h1le
+    exact state_below_floor_notfound c s n hs (by simp at this; omega)
+
+/-! ### ContractStorageLastUpdatedBlock -/
+
+/-- Repaired procedure: the history entry that records a write at `lw ≤ head` exists iff `lw` is at or above
+the durable floor. -/
+theorem hist_iff {c : Cfg} {s : St} {h a : Nat} (I : InvA c s h a) (hf : c.fixed = true) (lw : Nat) (hl : lw ≤ h) :
+    s.db.has .hist lw = true ↔ a ≤ lw := by
+  constructor
+  · intro hp
+    cases Nat.lt_or_ge lw a with
+    | inl hlt => rw [(I.lowGone hf lw hlt).2.2] at hp; cases hp
+    | inr hge => exact hge
+  · intro hge
+    exact (I.keepIn lw hge hl (not_dirty_fixed _ _ hf)).2.2.2
+
+theorem lastUpdRead_eq {c : Cfg} {s : St} {h a : Nat} (I : InvA c s h a) (hf : c.fixed = true) (lw : Nat) (hl : lw ≤ h) :
+    lastUpdRead c s.db lw = if c.legacy = true ∧ lw < a then .lost else .ok := by
+  unfold lastUpdRead
+  cases hleg : c.legacy with
+  | false => simp
+  | true =>
+    by_cases hlt : lw < a
+    · have : s.db.has .hist lw = false := (I.lowGone hf lw hlt).2.2
+      simp [this, hlt]
+    · have : s.db.has .hist lw = true := (hist_iff I hf lw hl).mpr (by omega)
+      simp [this, hlt]
+
+/-! ### a new-head event for a block that is not on the chain (any more) -/
+
+/-- With the proposed clamp (`onNewBlock` ignores an event whose block is above the current head) a stale
+event does nothing. -/
+theorem evL2_stale_noop {c : Cfg} {s : St} {n : UInt64} {h : Nat} (hc : c.l2Clamps = true)
+    (hh : s.db.height = some h) (hn : h < n.toNat) : (step c s (.evL2 n)).1 = s := by
+  simp only [step]
+  cases s.job with
+  | run _ _ _ _ => rfl
+  | idle =>
+    cases s.db.l1 with
+    | none => rfl
+    | some l1 => simp [hc, hh, hn]
+
+theorem evL2_empty_noop {c : Cfg} {s : St} {n : UInt64} (hc : c.l2Clamps = true)
+    (hh : s.db.height = none) : (step c s (.evL2 n)).1 = s := by
+  simp only [step]
+  cases s.job with
+  | run _ _ _ _ => rfl
+  | idle =>
+    cases s.db.l1 with
+    | none => rfl
+    | some l1 => simp [hc, hh]
+
+/-! ### the minimum age -/
+
+theorem age_of_reach {c : Cfg} {s : St} (R : Reach c s) (hm : Mono c.ts) (hma : c.minAge = true) :
+    ∀ n, n < effFloor s → c.ts n < s.cutoff := by
+  intro n hn
+  have I := inv_reach R
+  unfold Inv at I
+  cases hh : s.db.height with
+  | none =>
+    rw [hh] at I
+    simp only at I
+    unfold effFloor at hn
+    rw [lo_empty hh, I.2.2.1] at hn
+    omega
+  | some h =>
+    rw [hh] at I
+    simp only at I
+    obtain ⟨a, IA, AG⟩ := I
+    unfold effFloor at hn
+    rw [lo_of_inv hh IA] at hn
+    exact (AG hm hma).1 n hn
+
 /-! ### The closed form the driver starts long chains from -/
 
 theorem bulk_eq_stores (c : Cfg) : ∀ k, 0 < k → k < 2 ^ 64 →
@@ -364,14 +480,14 @@ def legalB (c : Cfg) (s : St) : Op → Bool
   | .store => match s.db.height with | none => true | some h => decide (h + 1 < 2 ^ 64)
   | .revert => match s.db.height with | none => false | some h => decide (effFloor s < h)
   | .evL1 _ => decide (s.mem.floorState ≠ 0)
-  | .evL2 n _ => decide (s.mem.floorState ≠ 0) &&
-      (match s.db.height with | none => false | some h => decide (n.toNat ≤ h))
+  | .evL2 n => decide (s.mem.floorState ≠ 0) &&
+      (c.l2Clamps || (match s.db.height with | none => false | some h => decide (n.toNat ≤ h)))
   | .crash _ | .fail => match s.job with | .idle => true | .run _ _ _ first => c.fixed || first
-  | .migrate mf u =>
+  | .migrate u =>
     (match s.job with | .idle => true | _ => false) && (!u || c.migSkipsMissing) &&
     (match s.db.height, s.db.l1 with
      | some h, some l1 =>
-       match migKeep c h l1 mf with
+       match migKeep c h l1 (migMinAgeFloor c h l1 s.cutoff) with
        | some keep => (decide (0 < keep.toNat) || c.migZeroNoop) && decide (max (lo s.db) s.mem.keepMax ≤ keep.toNat)
        | none => true
      | _, _ => true)
@@ -384,18 +500,20 @@ theorem legal_of_legalB {c : Cfg} {s : St} {op : Op} (h : legalB c s op = true) 
     | none => rw [e] at h; cases h
     | some hh => rw [e] at h; exact ⟨hh, rfl, by simpa using h⟩
   · simpa using h
-  · simp only [Bool.and_eq_true, decide_eq_true_eq] at h
+  · simp only [Bool.and_eq_true, Bool.or_eq_true, decide_eq_true_eq] at h
     refine ⟨h.1, ?_⟩
-    cases e : s.db.height with
-    | none => rw [e] at h; cases h.2
-    | some hh => rw [e] at h; exact ⟨hh, rfl, by simpa using h.2⟩
+    rcases h.2 with h2 | h2
+    · exact Or.inl h2
+    · cases e : s.db.height with
+      | none => rw [e] at h2; cases h2
+      | some hh => rw [e] at h2; exact Or.inr ⟨hh, rfl, by simpa using h2⟩
   · cases e : s.job with
     | idle => trivial
     | run a b d f => rw [e] at h; simpa [interruptible] using h
   · cases e : s.job with
     | idle => trivial
     | run a b d f => rw [e] at h; simpa [interruptible] using h
-  · rename_i mf u
+  · rename_i u
     simp only [Bool.and_eq_true] at h
     obtain ⟨⟨hj, hu⟩, hrest⟩ := h
     refine ⟨?_, ?_, ?_⟩
